@@ -3,7 +3,7 @@ use crate::json_generator::json_types::*;
 use emmylua_code_analysis::{
     AsyncState, DbIndex, FileId, LuaDeprecated, LuaMemberKey, LuaMemberOwner, LuaNoDiscard,
     LuaSemanticDeclId, LuaSignature, LuaType, LuaTypeCache, LuaTypeDecl, LuaTypeDeclId,
-    RenderLevel, Vfs,
+    LuaUnionType, RenderLevel, Vfs,
 };
 use emmylua_parser::VisibilityKind;
 use rowan::TextRange;
@@ -23,7 +23,7 @@ fn export_modules(db: &DbIndex) -> Vec<Module> {
     let modules = module_index.get_module_infos();
     let vfs = db.get_vfs();
 
-    modules
+    let mut modules: Vec<Module> = modules
         .into_iter()
         .filter(|module| module_index.is_main(&module.file_id))
         .filter_map(|module| {
@@ -61,7 +61,10 @@ fn export_modules(db: &DbIndex) -> Vec<Module> {
                 using,
             })
         })
-        .collect()
+        .collect();
+    // The module index is a hash map: sort so that the export does not depend on its iteration order.
+    modules.sort_by(|a, b| a.name.cmp(&b.name).then_with(|| a.file.cmp(&b.file)));
+    modules
 }
 
 fn export_types(db: &DbIndex) -> Vec<Type> {
@@ -69,7 +72,7 @@ fn export_types(db: &DbIndex) -> Vec<Type> {
     let module_index = db.get_module_index();
     let types = type_index.get_all_types();
 
-    types
+    let mut types: Vec<Type> = types
         .into_iter()
         .filter(|type_decl| {
             type_decl
@@ -88,7 +91,18 @@ fn export_types(db: &DbIndex) -> Vec<Type> {
                 None
             }
         })
-        .collect()
+        .collect();
+    // The type index is a hash map: sort so that the export does not depend on its iteration order.
+    types.sort_by(|a, b| type_name(a).cmp(type_name(b)));
+    types
+}
+
+fn type_name(typ: &Type) -> &str {
+    match typ {
+        Type::Class(class) => &class.name,
+        Type::Enum(enum_) => &enum_.name,
+        Type::Alias(alias) => &alias.name,
+    }
 }
 
 fn export_globals(db: &DbIndex) -> Vec<Global> {
@@ -98,7 +112,7 @@ fn export_globals(db: &DbIndex) -> Vec<Global> {
     let vfs = db.get_vfs();
     let globals = global_index.get_all_global_decl_ids();
 
-    globals
+    let mut globals: Vec<Global> = globals
         .into_iter()
         .filter(|global| module_index.is_main(&global.file_id))
         .filter_map(|global| {
@@ -125,7 +139,21 @@ fn export_globals(db: &DbIndex) -> Vec<Global> {
                 })),
             }
         })
-        .collect()
+        .collect();
+    // The global index is a hash map: sort so that the export does not depend on its iteration order.
+    globals.sort_by(|a, b| global_sort_key(a).cmp(&global_sort_key(b)));
+    globals
+}
+
+fn global_sort_key(global: &Global) -> (&str, Option<(&std::path::Path, usize)>) {
+    let (name, loc) = match global {
+        Global::Table(table) => (&table.name, &table.loc),
+        Global::Field(field) => (&field.name, &field.loc),
+    };
+    (
+        name.as_str(),
+        loc.as_ref().map(|loc| (loc.file.as_path(), loc.line)),
+    )
 }
 
 fn export_class(db: &DbIndex, type_decl: &LuaTypeDecl) -> Class {
@@ -177,9 +205,22 @@ fn export_enum(db: &DbIndex, type_decl: &LuaTypeDecl) -> Enum {
         loc: export_loc_for_type(db, type_decl),
         typ: type_decl
             .get_enum_field_type(db)
-            .map(|typ| render_typ(db, &typ, RenderLevel::Simple)),
+            .map(|typ| render_typ(db, &stable_enum_field_type(db, typ), RenderLevel::Simple)),
         generics: export_generics(db, &type_decl_id),
         members: export_members(db, member_owner),
+    }
+}
+
+/// The field type of an enum is a union collected from a hash map of members: order the union's
+/// members by their rendered text so that the export does not depend on the map's iteration order.
+fn stable_enum_field_type(db: &DbIndex, typ: LuaType) -> LuaType {
+    match &typ {
+        LuaType::Union(union) => {
+            let mut members = union.into_vec();
+            members.sort_by_cached_key(|member| render_typ(db, member, RenderLevel::Simple));
+            LuaType::Union(LuaUnionType::from_vec(members).into())
+        }
+        _ => typ,
     }
 }
 
@@ -361,11 +402,14 @@ fn export_property(db: &DbIndex, semantic_decl: &LuaSemanticDeclId) -> Property 
 
 fn export_loc_for_type(db: &DbIndex, type_decl: &LuaTypeDecl) -> Vec<Loc> {
     let vfs = db.get_vfs();
-    type_decl
+    let mut locs: Vec<Loc> = type_decl
         .get_locations()
         .iter()
         .filter_map(|loc| export_loc(vfs, loc.file_id, loc.range))
-        .collect()
+        .collect();
+    // Locations are recorded in analysis order, which is not stable between runs.
+    locs.sort_by(|a, b| a.file.cmp(&b.file).then_with(|| a.line.cmp(&b.line)));
+    locs
 }
 
 fn export_loc(vfs: &Vfs, file_id: FileId, range: TextRange) -> Option<Loc> {
